@@ -101,10 +101,17 @@ let handle line =
        [id ^ " P " ^ hex_of_string (render cp pt);
         id ^ " V " ^ show_run cp ts;
         id ^ " R " ^ show_run cp0 rt])
-  | L [A "case"; A id; L (A "pool" :: pool); L (A "pool0" :: pool0); L [A "text"; A hex]] ->
+  | L [A "case"; A id; L (A "pool" :: pool); L (A "pool0" :: pool0); L [A mode; A hex]] when mode = "text" || mode = "ptext" ->
+    (* ptext: the value is that of `(TEXT)` - ledger evaluates verif_rational(TEXT), where what follows a complete
+       expression is not dropped but meets the closing parenthesis *)
     let cp = mk_cp pool and cp0 = mk_cp pool0 in
     let s = str_of_hex hex in
     let ts = text_tokens s in
+    let show_run cp ts0 =
+      if mode = "ptext" && ts0 == ts then
+        (let s' = str_of_string ("(" ^ string_of_str s ^ ")") in
+         match parse_text cp s' with Err _ -> "E:Parse" | Ok _ -> show_run cp (text_tokens s'))
+      else show_run cp ts0 in
     (match parse_text cp s with
      | Err e -> [id ^ " P E:Parse"; id ^ " V E:Parse"; id ^ " R -"]
      | Ok None -> [id ^ " P NULL"; id ^ " V " ^ show_run cp ts; id ^ " R -"]
